@@ -31,6 +31,12 @@ func namesIn(pk *packages.Package, env *localEnv, e ast.Expr, depth int, out map
 			}
 		case *ast.Ident:
 			out[strings.ToLower(x.Name)] = true
+			// a converter named after what it produces (protoMesg(…) feeds Mesg)
+			if ln := strings.ToLower(x.Name); strings.HasPrefix(ln, "proto") && len(ln) > 5 {
+				if _, isFn := info.Uses[x].(*types.Func); isFn {
+					out[strings.TrimPrefix(ln, "proto")] = true
+				}
+			}
 			if env != nil {
 				if v, ok := info.Uses[x].(*types.Var); ok && !v.IsField() {
 					for _, d := range env.defs[v] {
